@@ -267,6 +267,10 @@ func (f *fetcher) getFromCacheOrFetch(req *http.Request, key cache.CacheKey, cli
 
 	up := req.Clone(req.Context())
 
+	// Drop the client's hop-by-hop fields now. They are removed again when the request is sent, but by
+	// then it also carries our own validators: a client "Connection: If-None-Match" would strip those.
+	removeHopByHopHeaders(up.Header)
+
 	// Cache is stale: set conditional headers if available
 	if cached.Metadata.Object.ETag != "" {
 		up.Header.Set("If-None-Match", cached.Metadata.Object.ETag)
